@@ -506,17 +506,14 @@ Proof.
   - cbn. unfold far_past, s_end. cbn. lia.
 Qed.
 
-Definition op_ok2 (o : op) : Prop :=
-  op_ok p o /\ match o with Block sg => seg_signed sg = sgn | _ => True end.
-
 Lemma model_C02_4 npre nsamp ts ops :
-  lengths_ok npre nsamp = true -> nsamp <= max_nsamp -> contiguous F0 ops -> Forall op_ok2 ops ->
+  lengths_ok npre nsamp = true -> nsamp <= max_nsamp -> contiguous F0 ops -> Forall (op_ok2 p sgn) ops ->
   exists bs,
     annotate F0 (init_sstate npre nsamp ts F0) (combine ops (run (fresh_start npre nsamp ts) ops)) = Some bs /\
     forall b, In b bs -> block_ok4 b.
 Proof.
   intros Hl Hm Hc HQ.
-  destruct (history_ind F0 Inv2 block_ok4 op_ok2) with (ops := ops)
+  destruct (history_ind F0 Inv2 block_ok4 (op_ok2 p sgn)) with (ops := ops)
     (d := fresh_start npre nsamp ts) (s := init_sstate npre nsamp ts F0) as [bs [Ha [Hb _]]].
   - intros d s sg HI [HQ1 HQ2] Hf. cbn [op_ok] in HQ1.
     destruct (block_step d s sg HI HQ1 HQ2 Hf) as [d' [recs H]]. exists d', recs. exact H.
@@ -539,3 +536,567 @@ Proof.
 Qed.
 
 End Hist.
+
+(* ---------- the auto scan: upper bounds on the gaps (no veto) ---------- *)
+
+Lemma auto_loop_chain raw veto npre nsamp dly :
+  1 <= nsamp -> nsamp <= dly -> veto <= 0 ->
+  forall fuel c found l, spaced 0 (c - dly) found ->
+    auto_loop fuel raw veto npre nsamp dly c found = Ok l ->
+    let e := zlen raw - nsamp + npre in
+    let M := fun x => In x found \/ In x l in
+    (c < e -> exists y, M y /\ c - dly < y < c + nsamp) /\
+    (forall x, M x -> e <= x + dly \/ exists y, M y /\ x < y < x + dly + nsamp) /\
+    (e <= c \/ exists x, M x /\ e <= x + dly).
+Proof.
+  intros Hn Hd Hv. induction fuel as [|fu IH]; intros c found l Hsp Hl; [discriminate|].
+  cbn [auto_loop] in Hl. cbv zeta. destruct (c + nsamp - npre <? zlen raw) eqn:Elt.
+  2:{ inversion Hl; subst. split; [lia|]. split; [|left; lia].
+      intros x [Hx|[]]. left. pose proof (spaced_ge 0 _ _ ltac:(lia) Hsp _ Hx). lia. }
+  assert (Hemit : (forall f, In f found -> c + nsamp <= f) ->
+            match vetoed raw veto (c - npre) nsamp with
+            | Panic => Panic
+            | Ok v => match auto_loop fu raw veto npre nsamp dly (c + dly) found with
+                      | Ok l => Ok (if v then l else c :: l) | Panic => Panic end
+            end = Ok l ->
+            (c < zlen raw - nsamp + npre -> exists y, (In y found \/ In y l) /\ c - dly < y < c + nsamp) /\
+            (forall x, In x found \/ In x l ->
+               zlen raw - nsamp + npre <= x + dly \/ exists y, (In y found \/ In y l) /\ x < y < x + dly + nsamp) /\
+            (zlen raw - nsamp + npre <= c \/ exists x, (In x found \/ In x l) /\ zlen raw - nsamp + npre <= x + dly)).
+  { intros Hall H. rewrite vetoed_off in H by assumption.
+    destruct (auto_loop fu raw veto npre nsamp dly (c + dly) found) as [l'|] eqn:El'; [|discriminate].
+    inversion H; subst l; clear H.
+    assert (Hsp' : spaced 0 (c + dly - dly) found).
+    { destruct found as [|nf rest]; [exact I|]. cbn [spaced] in *. split; [|tauto].
+      specialize (Hall nf ltac:(now left)). lia. }
+    destruct (IH _ _ _ Hsp' El') as [R1 [R2 R3]].
+    split; [|split].
+    - intros _. exists c. split; [right; now left|lia].
+    - intros x [Hx|[<-|Hx]].
+      + destruct (R2 x (or_introl Hx)) as [H|[y [[Hy|Hy] Hr]]]; [now left|right; exists y; split; [now left|lia]|].
+        right. exists y. split; [right; now right|lia].
+      + destruct (Z.lt_ge_cases (c + dly) (zlen raw - nsamp + npre)) as [Hlt|Hge]; [|left; lia].
+        destruct (R1 Hlt) as [y [[Hy|Hy] Hr]]; right; exists y; (split; [|lia]); [now left|right; now right].
+      + destruct (R2 x (or_intror Hx)) as [H|[y [[Hy|Hy] Hr]]]; [now left|right; exists y; split; [now left|lia]|].
+        right. exists y. split; [right; now right|lia].
+    - destruct R3 as [H|[x [[Hx|Hx] Hr]]].
+      + right. exists c. split; [right; now left|lia].
+      + right. exists x. split; [now left|lia].
+      + right. exists x. split; [right; now right|lia]. }
+  destruct found as [|nf rest].
+  - apply Hemit; [intros f []|exact Hl].
+  - cbn [spaced] in Hsp. destruct Hsp as [Hnf Hrest].
+    destruct (c + nsamp <=? nf) eqn:Eok.
+    + apply Hemit; [|exact Hl]. intros f [<-|Hf]; [lia|].
+      pose proof (spaced_ge 0 _ _ ltac:(lia) Hrest _ Hf). lia.
+    + assert (Hsp' : spaced 0 (nf + dly - dly) rest) by (replace (nf + dly - dly) with (nf + 0) by lia; exact Hrest).
+      destruct (IH _ _ _ Hsp' Hl) as [R1 [R2 R3]].
+      split; [|split].
+      * intros Hce. destruct (Z.eq_dec nf (c - dly)) as [Heq|Hne].
+        -- destruct (R1 ltac:(lia)) as [y [[Hy|Hy] Hr]]; exists y; (split; [|lia]); [left; now right|now right].
+        -- exists nf. split; [left; now left|lia].
+      * intros x [[<-|Hx]|Hx].
+        -- destruct (Z.lt_ge_cases (nf + dly) (zlen raw - nsamp + npre)) as [Hlt|Hge]; [|left; lia].
+           destruct (R1 Hlt) as [y [[Hy|Hy] Hr]]; right; exists y; (split; [|lia]); [left; now right|now right].
+        -- destruct (R2 x (or_introl Hx)) as [H|[y [[Hy|Hy] Hr]]]; [now left| |];
+             right; exists y; (split; [|lia]); [left; now right|now right].
+        -- destruct (R2 x (or_intror Hx)) as [H|[y [[Hy|Hy] Hr]]]; [now left| |];
+             right; exists y; (split; [|lia]); [left; now right|now right].
+      * destruct R3 as [H|[x [[Hx|Hx] Hr]]].
+        -- right. exists nf. split; [left; now left|lia].
+        -- right. exists x. split; [left; now right|lia].
+        -- right. exists x. split; [now right|lia].
+Qed.
+
+(* from "every trigger has a successor within B or is within B of the end" to the gaps of the sorted list *)
+Lemma gaps_from_cover B e : forall M lo ref,
+  spaced 0 lo M -> (forall m, In m M -> m < e) ->
+  (e - 1 - ref <= B \/ exists y, In y M /\ y <= ref + B) ->
+  (forall x, In x M -> e - 1 - x <= B \/ exists y, In y M /\ x < y <= x + B) ->
+  gaps_le B ref M /\ e - 1 - (match rev M with [] => ref | t :: _ => t end) <= B.
+Proof.
+  induction M as [|m M IH]; intros lo ref Hs He Hr Hc.
+  - cbn. split; [exact I|]. destruct Hr as [H|[y [[] _]]]. exact H.
+  - cbn [spaced] in Hs. destruct Hs as [Hlo Hs].
+    assert (Hmin : forall y, In y (m :: M) -> m <= y).
+    { intros y [<-|Hy]; [lia|]. pose proof (spaced_ge 0 _ _ ltac:(lia) Hs _ Hy). lia. }
+    assert (Hm : m - ref <= B).
+    { destruct Hr as [H|[y [Hy H]]]; [specialize (He m ltac:(now left)); lia|specialize (Hmin y Hy); lia]. }
+    destruct (IH (m + 0) m Hs) as [G1 G2].
+    + intros x Hx. apply He. now right.
+    + destruct (Hc m ltac:(now left)) as [H|[y [[<-|Hy] H]]]; [now left|lia|right; exists y; split; [exact Hy|lia]].
+    + intros x Hx. destruct (Hc x ltac:(now right)) as [H|[y [[<-|Hy] H]]]; [now left| |right; eauto].
+      specialize (Hmin x ltac:(now right)). lia.
+    + split; [cbn [gaps_le]; split; assumption|].
+      cbn [rev]. destruct (rev M) as [|t r]; cbn [app]; exact G2.
+Qed.
+
+Lemma spaced_map d lo F l : spaced d lo l -> spaced d (F + lo) (map (fun i => F + i) l).
+Proof.
+  revert lo. induction l as [|x l IH]; intros lo; cbn [spaced map]; [trivial|].
+  intros [H1 H2]. split; [lia|]. replace (F + x + d) with (F + (x + d)) by lia. now apply IH.
+Qed.
+
+(* ---------- the auto gap bound across blocks ---------- *)
+
+Section HistAuto.
+Variables (F0 p : Z) (sgn : bool).
+Hypothesis HF0 : 0 <= F0.
+
+Definition afree (ts : tstate) : bool := ts_auto ts && (ts_autoveto ts <=? 0).
+Definition adly (s : sstate) : Z := Z.max (ts_autodelay (s_ts s)) (s_nsamp s).
+
+(* the pending auto trigger is never already decidable *)
+Record AutoInv (d : dsp) (s : sstate) : Prop := {
+  a_empty : s_epoch s = [] ->
+            d_last d < s_S s + s_npre s /\
+            (afree (s_ts s) = true -> s_A F0 s <= Z.max (s_S s + s_npre s) (d_last d + adly s));
+  a_nonempty : s_epoch s <> [] -> afree (s_ts s) = true ->
+               s_end F0 s - (s_nsamp s - s_npre s) <= d_last d + adly s /\
+               s_end F0 s - zlen (st_data (d_stream d)) + s_npre s <= d_last d + adly s
+}.
+
+Lemma auto_epoch_start d' s npre' nsamp' ts' :
+  3 <= npre' -> npre' + 1 <= nsamp' -> d_last d' < s_end F0 s -> AutoInv d' (new_epoch F0 s npre' nsamp' ts').
+Proof.
+  intros Hp Hs HL. split.
+  - intros _. unfold new_epoch, s_A, s_end. cbn [s_S s_npre s_nsamp s_G]. unfold s_end in HL. split; [lia|]. intros _. lia.
+  - intros H. exfalso. apply H. reflexivity.
+Qed.
+
+Lemma block_step_auto d s sg :
+  Inv2 F0 p sgn d s -> AutoInv d s -> seg_period sg = p -> seg_signed sg = sgn -> seg_first sg = F0 + zlen (s_G s) ->
+  exists d' recs, process_block d sg = Ok (d', recs) /\
+    auto_gap (mkbi (s_npre s) (s_nsamp s) (s_ts s) F0 (s_G s ++ seg_data sg) sg (s_S s) (s_epoch s) (s_all s) recs) /\
+    AutoInv d' (mkss (s_npre s) (s_nsamp s) (s_ts s) (s_G s ++ seg_data sg) (s_S s)
+                     (s_epoch s ++ map r_frame recs) (s_all s ++ map r_frame recs)).
+Proof.
+  intros [HI Hnp Hns Hts HS HS0 Hsub Hlast HlastA HlastE Hkeep Hedge Hlevel Hle Hlst] [AE AN] Hper Hsg Hfirst.
+  destruct (process_block_spec F0 p d (s_G s) sg HI Hfirst Hper) as [E [L [A [idx [recs [Hpb [Hsc [HF [Hst [_ [_ HI']]]]]]]]]]].
+  pose proof HI as [_ Hp3 Hs1 Hmax _ _ _].
+  exists (after_block (appended d sg) idx), recs. split; [exact Hpb|].
+  set (d1 := appended d sg) in *. set (st1 := d_stream d1) in *.
+  set (b := mkbi (s_npre s) (s_nsamp s) (s_ts s) F0 (s_G s ++ seg_data sg) sg (s_S s) (s_epoch s) (s_all s) recs).
+  set (s' := mkss (s_npre s) (s_nsamp s) (s_ts s) (s_G s ++ seg_data sg) (s_S s)
+                  (s_epoch s ++ map r_frame recs) (s_all s ++ map r_frame recs)).
+  unfold adly in AE, AN.
+  set (npre := s_npre s) in *. set (nsamp := s_nsamp s) in *. set (ts := s_ts s) in *.
+  set (F1 := st_first st1). set (nd := zlen (st_data st1)).
+  set (lold := zlen (st_data (d_stream d))) in *.
+  pose proof (zlen_nonneg (st_data (d_stream d))) as Hlold. fold lold in Hlold.
+  pose proof (zlen_nonneg (seg_data sg)) as Hnn.
+  assert (HF1 : F1 = s_end F0 s - lold) by (unfold F1, st1, d1, s_end; cbn; unfold lold; lia).
+  assert (Hnd : nd = lold + zlen (seg_data sg)) by (unfold nd, st1, d1; cbn; now rewrite zlen_app).
+  assert (Hend' : s_end F0 s' = s_end F0 s + zlen (seg_data sg)) by (unfold s_end, s'; cbn [s_G]; rewrite zlen_app; lia).
+  assert (HendF : s_end F0 s' = F1 + nd) by lia.
+  assert (Hd1 : d_npre d1 = npre /\ d_nsamp d1 = nsamp /\ d_ts d1 = ts /\ d_last d1 = d_last d).
+  { unfold d1. cbn. auto. }
+  destruct Hd1 as [Hd1a [Hd1b [Hd1c Hd1d]]].
+  assert (Hp3' : 3 <= npre) by lia. assert (Hs1' : npre + 1 <= nsamp) by lia.
+  set (e := nd + npre - nsamp).
+  assert (Hdec : dec_end b = F1 + e).
+  { change (dec_end b) with (s_end F0 s' - (nsamp - npre)). rewrite HendF. unfold e. lia. }
+  assert (HfirstC : first_cand b = s_S s + npre) by reflexivity.
+  assert (Htr : map r_frame recs = map (fun i => F1 + i) idx).
+  { apply (cut_frames st1 (d_npre d) (d_nsamp d)). exact HF. }
+  assert (Htrigs : trigs b = map (fun i => F1 + i) idx) by (unfold trigs, bi_trigs; exact Htr).
+  pose proof (sc_in _ _ _ _ _ Hsc) as SI. pose proof (sc_range _ _ _ _ _ Hsc) as SR.
+  pose proof (sc_sorted _ _ _ _ _ Hsc) as SS. pose proof (sc_auto _ _ _ _ _ Hsc) as SA.
+  rewrite Hd1c in SA. rewrite Hd1a, Hd1b in SR. rewrite Hd1a in SS. fold st1 in SR. fold nd in SR.
+  set (dly := Z.max (ts_autodelay ts) nsamp) in *.
+  assert (Hdlyeq : auto_dly_of d1 = dly).
+  { unfold auto_dly_of, dly. rewrite Hd1b, Hd1c. destruct (_ <? _) eqn:E0; lia. }
+  assert (Hdn : nsamp <= dly) by (unfold dly; lia).
+  set (c0 := first_potential_auto d1) in *.
+  assert (Hc0 : F1 + c0 = Z.max (F1 + npre) (d_last d + dly)).
+  { unfold c0, first_potential_auto. fold st1. fold F1. rewrite Hd1d, Hd1a, Hd1b, Hd1c. unfold dly.
+    destruct (ts_autodelay ts >? nsamp) eqn:E1; destruct (_ <? npre) eqn:E3; lia. }
+  pose proof (first_potential_ge d1) as Hfpge. rewrite Hd1a in Hfpge.
+  assert (Hfpabs : d_last d + nsamp <= F1 + first_potential d1).
+  { unfold first_potential. fold st1. fold F1. rewrite Hd1a, Hd1b, Hd1d. destruct (_ <? _) eqn:E0; lia. }
+  set (Lnew := match last_opt idx with Some i => F1 + i | None => d_last d end).
+  assert (Hd'last : d_last (after_block d1 idx) = Lnew).
+  { unfold after_block, Lnew. cbn [d_last set_stream set_last]. fold st1. fold F1. now rewrite Hd1d. }
+  assert (HLnew : (idx = [] /\ Lnew = d_last d) \/
+                  (exists i, In i idx /\ Lnew = F1 + i /\ forall j, In j idx -> j <= i)).
+  { unfold Lnew. destruct (last_opt idx) as [i|] eqn:El.
+    - right. destruct (last_opt_spaced _ _ _ SS El) as [H1 H2]. exists i. auto.
+    - left. split; [now apply last_opt_none|reflexivity]. }
+  assert (Hd'len : zlen (st_data (d_stream (after_block d1 idx))) = Z.min nd (2 * nsamp + 10)).
+  { unfold after_block. cbn [d_stream set_stream set_last]. rewrite Hd1b. fold st1. unfold trim. fold nd.
+    destruct (2 * nsamp + 10 >=? nd) eqn:E0; [fold nd; lia|].
+    cbn [st_data]. rewrite zskipn_length; fold nd; lia. }
+  assert (Hkeep' : F1 + npre <= s_A F0 s) by (rewrite HF1; exact Hkeep).
+  assert (HA' : s_A F0 s' = Z.max (s_S s + npre) (F1 + e)).
+  { unfold s_A. cbn [s_S s_npre s_nsamp s']. fold npre nsamp. rewrite HendF. unfold e. lia. }
+  (* the pending candidate in frames, by cases on whether the epoch already has triggers *)
+  assert (Hc0_ne : s_epoch s <> [] -> afree ts = true -> F1 + c0 = d_last d + dly).
+  { intros H1 H2. destruct (AN H1 H2) as [_ H3]. rewrite <- HF1 in H3. lia. }
+  assert (Hc0_e : s_epoch s = [] -> afree ts = true -> F1 + c0 < s_S s + npre + dly /\ d_last d < s_S s + npre).
+  { intros H1 H2. destruct (AE H1) as [H3 H4]. specialize (H4 H2). lia. }
+  (* facts from the scan *)
+  assert (Hscan : afree ts = true ->
+            (c0 < e -> exists y, In y idx /\ c0 - dly < y < c0 + nsamp) /\
+            (forall x, In x idx -> e <= x + dly \/ exists y, In y idx /\ x < y < x + dly + nsamp) /\
+            (e <= c0 \/ exists x, In x idx /\ e <= x + dly) /\
+            (forall x, In x A -> c0 <= x)).
+  { intros Haf. unfold afree in Haf. assert (Hta : ts_auto ts = true) by lia. assert (Hv : ts_autoveto ts <= 0) by lia.
+    rewrite Hta in SA. destruct SA as [fuel [EL [Hloop [Hsp HELin]]]].
+    rewrite Hd1a, Hd1b, Hdlyeq in Hloop. rewrite Hdlyeq in Hsp. fold st1 in Hloop.
+    assert (Hn1 : 1 <= nsamp) by lia.
+    destruct (auto_loop_chain _ _ _ _ _ Hn1 Hdn Hv _ _ _ _ Hsp Hloop) as [R1 [R2 R3]].
+    destruct (auto_loop_slots _ _ _ _ _ Hn1 Hdn _ _ _ _ Hsp Hloop) as [S1 _].
+    fold nd in R1, R2, R3. replace (nd - nsamp + npre) with e in R1, R2, R3 by (unfold e; lia).
+    assert (HM : forall y, In y EL \/ In y A -> In y idx).
+    { intros y [Hy|Hy]; apply SI; [apply HELin in Hy; tauto|tauto]. }
+    assert (HM' : forall y, In y idx -> In y EL \/ In y A).
+    { intros y Hy. apply SI in Hy. destruct Hy as [Hy|[Hy|Hy]]; [left; apply HELin; tauto|left; apply HELin; tauto|now right]. }
+    split; [|split; [|split]].
+    - intros Hce. destruct (R1 Hce) as [y [Hy Hr]]. exists y. split; [now apply HM|exact Hr].
+    - intros x Hx. destruct (R2 x (HM' x Hx)) as [H|[y [Hy Hr]]]; [now left|right; exists y; split; [now apply HM|exact Hr]].
+    - destruct R3 as [H|[x [Hx Hr]]]; [now left|right; exists x; split; [now apply HM|exact Hr]].
+    - intros x Hx. apply (spaced_ge dly _ _ ltac:(lia) S1 _ Hx). }
+  split.
+  - (* the judgement on this block *)
+    unfold auto_gap, auto_free. change (bi_ts b) with ts. fold (afree ts). intros Haf.
+    destruct (Hscan Haf) as [R1 [R2 [R3 R4]]].
+    unfold auto_bound, auto_dly. change (bi_ts b) with ts. change (bi_nsamp b) with nsamp. fold dly.
+    assert (Hcov : gaps_le (dly + nsamp) (chain_start b) (trigs b) /\
+                   dec_end b - 1 - (match rev (trigs b) with [] => chain_start b | t :: _ => t end) <= dly + nsamp).
+    { apply (gaps_from_cover (dly + nsamp) (dec_end b) (trigs b) (F1 + npre) (chain_start b)).
+      - rewrite Htrigs. apply spaced_map. exact SS.
+      - intros m Hm. rewrite Htrigs in Hm. apply in_map_iff in Hm. destruct Hm as [i [<- Hi]].
+        destruct (SR i Hi). rewrite Hdec. unfold e. lia.
+      - (* the first trigger is within the bound of the chain start *)
+        rewrite Hdec. unfold chain_start. change (bi_prev b) with (s_epoch s). rewrite HfirstC.
+        destruct (rev (s_epoch s)) as [|q rest] eqn:Er.
+        + assert (Hemp : s_epoch s = []).
+          { destruct (s_epoch s) as [|x l]; [reflexivity|]. cbn [rev] in Er. destruct (rev l); discriminate. }
+          destruct (Hc0_e Hemp Haf) as [H1 H2].
+          destruct (Z.lt_ge_cases c0 e) as [Hce|Hce]; [|left; lia].
+          destruct (R1 Hce) as [y [Hy Hr]]. right. exists (F1 + y). split; [|lia].
+          rewrite Htrigs. apply in_map_iff. eauto.
+        + assert (Hne : s_epoch s <> []) by (intros H; rewrite H in Er; discriminate).
+          pose proof (Hlst q rest eq_refl) as Hq. subst q.
+          pose proof (Hc0_ne Hne Haf) as H1.
+          destruct (Z.lt_ge_cases c0 e) as [Hce|Hce]; [|left; lia].
+          destruct (R1 Hce) as [y [Hy Hr]]. right. exists (F1 + y). split; [|lia].
+          rewrite Htrigs. apply in_map_iff. eauto.
+      - intros x Hx. rewrite Htrigs in Hx. apply in_map_iff in Hx. destruct Hx as [i [<- Hi]]. rewrite Hdec.
+        destruct (R2 i Hi) as [H|[y [Hy Hr]]]; [left; lia|].
+        right. exists (F1 + y). split; [|lia]. rewrite Htrigs. apply in_map_iff. eauto. }
+    destruct Hcov as [G1 G2]. split; [exact G1|]. intros _. unfold chain_last. exact G2.
+  - (* the invariant after the block *)
+    split.
+    + cbn [s_epoch s_S s_npre s_ts s_nsamp s']. fold npre nsamp ts. intros Hemp'.
+      apply app_eq_nil in Hemp'. destruct Hemp' as [Hemp Hrec].
+      assert (Hidx : idx = []).
+      { rewrite Htr in Hrec. destruct idx; [reflexivity|discriminate]. }
+      destruct (AE Hemp) as [H1 H2]. rewrite Hd'last.
+      destruct HLnew as [[_ ->]|[i [Hi _]]]; [|rewrite Hidx in Hi; destruct Hi].
+      split; [exact H1|]. intros Haf. unfold adly. cbn [s_ts s_nsamp s']. fold ts nsamp dly. rewrite HA'.
+      destruct (Hscan Haf) as [_ [_ [R3 _]]]. destruct (Hc0_e Hemp Haf) as [H3 H4]. specialize (H2 Haf).
+      destruct R3 as [H|[x [Hx _]]]; [|rewrite Hidx in Hx; destruct Hx]. lia.
+    + cbn [s_epoch s_S s_npre s_ts s_nsamp s']. fold npre nsamp ts. intros Hne' Haf. unfold adly. cbn [s_ts s_nsamp s']. fold ts nsamp dly.
+      rewrite Hd'last, Hd'len, HendF.
+      destruct (Hscan Haf) as [_ [_ [R3 R4]]].
+      destruct HLnew as [[Hidx ->]|[i [Hi [-> Hmaxi]]]].
+      * (* no trigger in this block: the epoch had triggers before *)
+        assert (Hne : s_epoch s <> []).
+        { intros H. apply Hne'. rewrite H, Htr, Hidx. reflexivity. }
+        destruct (AN Hne Haf) as [H1 H2]. pose proof (Hc0_ne Hne Haf) as H3.
+        destruct R3 as [H|[x [Hx _]]]; [|rewrite Hidx in Hx; destruct Hx]. unfold e in H. rewrite <- HF1 in H2. lia.
+      * destruct (SR i Hi) as [Hi1 Hi2].
+        assert (He : F1 + e <= F1 + i + dly).
+        { destruct R3 as [H|[x [Hx Hr]]]; [|specialize (Hmaxi x Hx); lia].
+          (* e <= c0: then i is an edge/level trigger before the pending candidate *)
+          assert (HiEL : In i E \/ In i L).
+          { apply SI in Hi. destruct Hi as [Hi|[Hi|Hi]]; [now left|now right|]. specialize (R4 i Hi). unfold e in H. lia. }
+          assert (Hfpi : first_potential d1 <= i).
+          { pose proof (sc_edge _ _ _ _ _ Hsc) as SE. pose proof (sc_level _ _ _ _ _ Hsc) as SL.
+            destruct HiEL as [Hx|Hx].
+            - destruct (ts_edge (d_ts d1)); [|subst E; destruct Hx]. destruct (el_range _ _ _ _ _ _ _ SE i Hx). lia.
+            - destruct (ts_level (d_ts d1)); [|subst L; destruct Hx]. destruct (ll_range _ _ _ _ _ _ _ _ _ SL i Hx). lia. }
+          unfold e in H. lia. }
+        unfold e in He. lia.
+Qed.
+
+Lemma model_C02 npre nsamp ts ops :
+  lengths_ok npre nsamp = true -> nsamp <= max_nsamp -> contiguous F0 ops -> Forall (op_ok2 p sgn) ops ->
+  C02_holds npre nsamp ts F0 (combine ops (run (fresh_start npre nsamp ts) ops)).
+Proof.
+  intros Hl Hm Hc HQ.
+  destruct (history_ind F0 (fun d s => Inv2 F0 p sgn d s /\ AutoInv d s) block_ok (op_ok2 p sgn)) with (ops := ops)
+    (d := fresh_start npre nsamp ts) (s := init_sstate npre nsamp ts F0) as [bs [Ha [Hb _]]].
+  - intros d s sg [HI HA] [HQ1 HQ2] Hf. cbn [op_ok] in HQ1.
+    destruct (block_step F0 p sgn HF0 d s sg HI HQ1 HQ2 Hf) as [d' [recs [Hpb [[B1 [B2 [B3 B4]]] HI']]]].
+    destruct (block_step_auto d s sg HI HA HQ1 HQ2 Hf) as [d'' [recs' [Hpb' [B5 HA']]]].
+    rewrite Hpb in Hpb'. inversion Hpb'; subst d'' recs'.
+    exists d', recs. split; [exact Hpb|]. split; [exact (conj B1 (conj B2 (conj B3 (conj B4 B5))))|]. split; assumption.
+  - intros d s ts' [HI HA] [HQ1 _]. cbn [op_ok] in HQ1.
+    pose proof HI as [H1 H2 H3 H4 _ _ _ _ _ H10 _ _ _ _ _].
+    pose proof H1 as [_ Hp3 Hs1 _ _ _ _].
+    split.
+    + apply epoch_start_inv2; try assumption; try reflexivity.
+      * apply cfg_trig_inv1; assumption.
+      * now left.
+      * cbn. unfold far_past, s_end. pose proof (zlen_nonneg (s_G s)). lia.
+    + apply auto_epoch_start; [lia|lia|]. cbn. unfold far_past, s_end. pose proof (zlen_nonneg (s_G s)). lia.
+  - intros d s nsamp' npre' [HI HA] [HQ1 _]. cbn [op_ok] in HQ1.
+    pose proof HI as [H1 H2 H3 H4 _ _ _ H8 _ H10 _ _ _ _ _].
+    pose proof H1 as [_ Hp3 Hs1 _ _ _ _].
+    unfold cfg_len. destruct (lengths_ok npre' nsamp') eqn:El; cbn [fst].
+    + split.
+      * apply epoch_start_inv2; try assumption; try reflexivity.
+        pose proof (cfg_len_inv1 F0 p d (s_G s) nsamp' npre' H1 HQ1 El) as Hx. unfold cfg_len in Hx. now rewrite El in Hx.
+      * apply lengths_ok_iff in El. apply auto_epoch_start; [lia|lia|exact H10].
+    + split; [apply epoch_start_inv2; assumption|]. apply auto_epoch_start; [lia|lia|exact H10].
+  - split; [apply fresh_inv2; assumption|].
+    replace (init_sstate npre nsamp ts F0) with (new_epoch F0 (mkss npre nsamp (no_emulti ts) [] F0 [] []) npre nsamp (no_emulti ts)).
+    2:{ unfold new_epoch, init_sstate. cbn [s_G s_all]. f_equal. change (zlen (@nil Z)) with 0. lia. }
+    apply lengths_ok_iff in Hl. apply auto_epoch_start; [lia|lia|]. cbn. unfold far_past, s_end. cbn. lia.
+  - cbn. now rewrite Z.add_0_r.
+  - exact HQ.
+  - exists bs. split; assumption.
+Qed.
+
+End HistAuto.
+
+(* ---------- the two defects of the unchanged tree, as refutations of the pre-fix model ---------- *)
+
+Definition wit_ts : tstate := mkts false 0 0 false false 0 true true false 100 false.
+Definition wit_flat (n v : Z) : list Z := map (fun _ => v) (zrange 0 n).
+Definition wit_blk (data : list Z) (first : Z) : op :=
+  Block {| seg_data := data; seg_first := first; seg_time := 1000 * first; seg_period := 1000; seg_signed := false |}.
+
+(* (a) fresh start, restored edge trigger, npre 3, nsamp 12: the pre-fix processor keeps 10 samples, so a step at
+   frame 11 (first undecidable position of a 20-sample block) is never examined at frames 11 and 12 *)
+Definition wit_a_ops : list op :=
+  [ wit_blk (wit_flat 11 1000 ++ wit_flat 9 3000) 0; wit_blk (wit_flat 20 3000) 20; wit_blk (wit_flat 20 3000) 40 ].
+
+Lemma refuted_a :
+  C02_check 3 12 wit_ts 0 (combine wit_a_ops (run (fresh_start_old 3 12 wit_ts) wit_a_ops)) = false /\
+  C02_check 3 12 wit_ts 0 (combine wit_a_ops (run (fresh_start 3 12 wit_ts) wit_a_ops)) = true.
+Proof. split; vm_compute; reflexivity. Qed.
+
+(* (b) ConfigureTrigger on a stream that starts at frame 0: LastTrigger = 0 hides the step at frame 6 *)
+Definition wit_b_ops : list op :=
+  [ CfgTrig wit_ts; wit_blk (wit_flat 6 1000 ++ wit_flat 24 3000) 0; wit_blk (wit_flat 30 3000) 30 ].
+Definition wit_none : tstate := mkts false 0 0 false false 0 false true false 100 false.
+
+Lemma refuted_b :
+  C02_check 3 12 wit_none 0 (combine wit_b_ops (run_old (fresh_start 3 12 wit_none) wit_b_ops)) = false /\
+  C02_check 3 12 wit_none 0 (combine wit_b_ops (run (fresh_start 3 12 wit_none) wit_b_ops)) = true.
+Proof. split; vm_compute; reflexivity. Qed.
+
+(* ---------- the boolean checker versus the Prop judgements ---------- *)
+
+Lemma auto_slotb_iff b t : auto_slotb b t = true <-> auto_slot b t.
+Proof.
+  unfold auto_slotb, auto_slot. rewrite forallb_forall. split; intros H u Hu.
+  - intros Hlt. specialize (H u Hu). destruct (u <? t) eqn:E; lia.
+  - destruct (u <? t) eqn:E; [|reflexivity]. specialize (H u Hu ltac:(lia)). lia.
+Qed.
+
+Lemma soundb_iff b : soundb b = true <-> sound b.
+Proof.
+  unfold soundb, sound. rewrite forallb_forall. split; intros H t Ht; specialize (H t Ht).
+  - rewrite !orb_true_iff, !andb_true_iff, auto_slotb_iff in H. tauto.
+  - rewrite !orb_true_iff, !andb_true_iff, auto_slotb_iff. tauto.
+Qed.
+
+Lemma edge_accountedb_iff b k : edge_accountedb b k = true <-> edge_accounted b k.
+Proof.
+  unfold edge_accountedb, edge_accounted. rewrite existsb_exists.
+  split; intros [t [Ht H]]; exists t; (split; [exact Ht|]); lia.
+Qed.
+
+Lemma level_accountedb_iff b k : level_accountedb b k = true <-> level_accounted b k.
+Proof.
+  unfold level_accountedb, level_accounted. rewrite existsb_exists.
+  split; intros [t [Ht H]]; exists t; (split; [exact Ht|]); lia.
+Qed.
+
+(* the incremental statements the checker evaluates: candidates that became decidable with this block *)
+Definition edge_complete_new (b : binfo) : Prop :=
+  ts_edge (bi_ts b) = true -> forall k, new_lo b <= k < dec_end b -> edge_crit b k = true -> edge_accounted b k.
+Definition level_complete_new (b : binfo) : Prop :=
+  ts_level (bi_ts b) = true -> forall k, new_lo b <= k < dec_end b -> level_crit b k = true -> level_accounted b k.
+
+Lemma edge_completeb_iff b : edge_completeb b = true <-> edge_complete_new b.
+Proof.
+  unfold edge_completeb, edge_complete_new. destruct (ts_edge (bi_ts b)); [|split; [discriminate|reflexivity]].
+  rewrite forallb_forall. split.
+  - intros H _ k Hk Hc. specialize (H k). rewrite in_zrange in H. specialize (H ltac:(lia)).
+    rewrite Hc in H. now apply edge_accountedb_iff.
+  - intros H k Hk. rewrite in_zrange in Hk. destruct (edge_crit b k) eqn:Hc; [|reflexivity].
+    apply edge_accountedb_iff. apply H; [reflexivity|lia|exact Hc].
+Qed.
+
+Lemma level_completeb_iff b : level_completeb b = true <-> level_complete_new b.
+Proof.
+  unfold level_completeb, level_complete_new. destruct (ts_level (bi_ts b)); [|split; [discriminate|reflexivity]].
+  rewrite forallb_forall. split.
+  - intros H _ k Hk Hc. specialize (H k). rewrite in_zrange in H. specialize (H ltac:(lia)).
+    rewrite Hc in H. now apply level_accountedb_iff.
+  - intros H k Hk. rewrite in_zrange in Hk. destruct (level_crit b k) eqn:Hc; [|reflexivity].
+    apply level_accountedb_iff. apply H; [reflexivity|lia|exact Hc].
+Qed.
+
+Lemma edge_complete_new_of b : edge_complete b -> edge_complete_new b.
+Proof. intros H Ht k Hk Hc. apply H; [exact Ht| |exact Hc]. unfold new_lo in Hk. lia. Qed.
+Lemma level_complete_new_of b : level_complete b -> level_complete_new b.
+Proof. intros H Ht k Hk Hc. apply H; [exact Ht| |exact Hc]. unfold new_lo in Hk. lia. Qed.
+
+Lemma gaps_geb_iff d x l : gaps_geb d x l = true <-> gaps_ge d x l.
+Proof. revert x. induction l as [|y l IH]; intros x; cbn [gaps_geb gaps_ge]; [tauto|]. rewrite andb_true_iff, IH, Z.leb_le. tauto. Qed.
+Lemma gaps_leb_iff d x l : gaps_leb d x l = true <-> gaps_le d x l.
+Proof. revert x. induction l as [|y l IH]; intros x; cbn [gaps_leb gaps_le]; [tauto|]. rewrite andb_true_iff, IH, Z.leb_le. tauto. Qed.
+
+Lemma no_overlapb_iff b : no_overlapb b = true <-> no_overlap b.
+Proof.
+  unfold no_overlapb, no_overlap. destruct (only_edge b); [|split; [discriminate|reflexivity]].
+  destruct (rev (bi_prev b)) as [|q r].
+  - destruct (trigs b) as [|t l]; [tauto|]. rewrite gaps_geb_iff. tauto.
+  - rewrite gaps_geb_iff. tauto.
+Qed.
+
+Lemma auto_gapb_iff b : auto_gapb b = true <-> auto_gap b.
+Proof.
+  unfold auto_gapb, auto_gap. destruct (auto_free b); [|split; [discriminate|reflexivity]].
+  rewrite andb_true_iff, gaps_leb_iff. destruct (first_cand b <? dec_end b) eqn:E.
+  - split; [intros [H1 H2] _; split; [exact H1|intros _; lia]|]. intros H. destruct (H eq_refl) as [H1 H2].
+    split; [exact H1|]. specialize (H2 ltac:(lia)). lia.
+  - split; [intros [H1 _] _; split; [exact H1|lia]|]. intros H. destruct (H eq_refl) as [H1 _]. tauto.
+Qed.
+
+(* what the checker establishes for one block *)
+Definition block_ok_new (b : binfo) : Prop :=
+  sound b /\ edge_complete_new b /\ level_complete_new b /\ no_overlap b /\ auto_gap b.
+
+Lemma block_okb_iff b : block_okb b = true <-> block_ok_new b.
+Proof.
+  unfold block_okb, block_ok_new.
+  rewrite !andb_true_iff, soundb_iff, edge_completeb_iff, level_completeb_iff, no_overlapb_iff, auto_gapb_iff. tauto.
+Qed.
+
+Lemma block_ok_new_of b : block_ok b -> block_ok_new b.
+Proof.
+  intros [H1 [H2 [H3 [H4 H5]]]].
+  exact (conj H1 (conj (edge_complete_new_of b H2) (conj (level_complete_new_of b H3) (conj H4 H5)))).
+Qed.
+
+Lemma C02_check_of_holds npre nsamp ts F0 h : C02_holds npre nsamp ts F0 h -> C02_check npre nsamp ts F0 h = true.
+Proof.
+  intros [bs [Ha Hb]]. unfold C02_check. rewrite Ha. apply forallb_forall. intros b Hb'.
+  apply block_okb_iff, block_ok_new_of, Hb, Hb'.
+Qed.
+
+Lemma C02_check_sound npre nsamp ts F0 h :
+  C02_check npre nsamp ts F0 h = true ->
+  exists bs, annotate F0 (init_sstate npre nsamp ts F0) h = Some bs /\ forall b, In b bs -> block_ok_new b.
+Proof.
+  unfold C02_check. destruct (annotate F0 _ h) as [bs|]; [|discriminate].
+  rewrite forallb_forall. intros H. exists bs. split; [reflexivity|]. intros b Hb. apply block_okb_iff, H, Hb.
+Qed.
+
+(* ---------- the statements of Properties.v ---------- *)
+
+Section Statements.
+Variables (npre nsamp : Z) (ts : tstate) (F0 period : Z) (sgn : bool) (ops : list op).
+Hypothesis HF0 : 0 <= F0.
+Hypothesis Hlen : lengths_ok npre nsamp = true.
+Hypothesis Hmax : nsamp <= max_nsamp.
+Hypothesis Hcont : contiguous F0 ops.
+Hypothesis Hops : Forall (op_ok2 period sgn) ops.
+
+Let h := combine ops (run (fresh_start npre nsamp ts) ops).
+
+Lemma model_blocks :
+  exists bs, annotate F0 (init_sstate npre nsamp ts F0) h = Some bs /\ forall b, In b bs -> block_ok b.
+Proof. exact (model_C02 F0 period sgn HF0 npre nsamp ts ops Hlen Hmax Hcont Hops). Qed.
+
+Lemma st_edge_sound :
+  exists bs, annotate F0 (init_sstate npre nsamp ts F0) h = Some bs /\
+    forall b t, In b bs -> In t (trigs b) ->
+      (ts_edge (bi_ts b) = true /\ edge_crit b t = true) \/
+      (ts_level (bi_ts b) = true /\ level_crit b t = true) \/
+      (ts_auto (bi_ts b) = true /\ forall u, In u (epoch_trigs b) -> u < t -> auto_dly b <= t - u).
+Proof.
+  destruct model_blocks as [bs [Ha Hb]]. exists bs. split; [exact Ha|].
+  intros b t Hb' Ht. destruct (Hb b Hb') as [H _]. exact (H t Ht).
+Qed.
+
+Lemma st_edge_complete :
+  exists bs, annotate F0 (init_sstate npre nsamp ts F0) h = Some bs /\
+    forall b k, In b bs -> ts_edge (bi_ts b) = true ->
+      first_cand b <= k < dec_end b -> edge_crit b k = true ->
+      exists t, In t (all_trigs b) /\ (t = k \/ t < k <= t + bi_nsamp b).
+Proof.
+  destruct model_blocks as [bs [Ha Hb]]. exists bs. split; [exact Ha|].
+  intros b k Hb' Ht Hk Hc. destruct (Hb b Hb') as [_ [H _]]. exact (H Ht k Hk Hc).
+Qed.
+
+Lemma st_level_complete :
+  exists bs, annotate F0 (init_sstate npre nsamp ts F0) h = Some bs /\
+    forall b k, In b bs -> ts_level (bi_ts b) = true ->
+      first_cand b <= k < dec_end b -> level_crit b k = true ->
+      exists t, In t (all_trigs b) /\ Z.abs (k - t) < bi_nsamp b.
+Proof.
+  destruct model_blocks as [bs [Ha Hb]]. exists bs. split; [exact Ha|].
+  intros b k Hb' Ht Hk Hc. destruct (Hb b Hb') as [_ [_ [H _]]]. exact (H Ht k Hk Hc).
+Qed.
+
+Lemma st_edge_no_overlap :
+  exists bs, annotate F0 (init_sstate npre nsamp ts F0) h = Some bs /\
+    forall b, In b bs ->
+      ts_edge (bi_ts b) = true -> ts_level (bi_ts b) = false -> ts_auto (bi_ts b) = false ->
+      match rev (bi_prev b) with
+      | [] => match trigs b with [] => True | t :: l => gaps_ge (bi_nsamp b) t l end
+      | q :: _ => gaps_ge (bi_nsamp b) q (trigs b)
+      end.
+Proof.
+  destruct model_blocks as [bs [Ha Hb]]. exists bs. split; [exact Ha|].
+  intros b Hb' H1 H2 H3. destruct (Hb b Hb') as [_ [_ [_ [H _]]]]. apply H.
+  unfold only_edge. now rewrite H1, H2, H3.
+Qed.
+
+Lemma st_auto_gap_bound :
+  exists bs, annotate F0 (init_sstate npre nsamp ts F0) h = Some bs /\
+    forall b, In b bs ->
+      ts_auto (bi_ts b) = true -> ts_autoveto (bi_ts b) <= 0 ->
+      gaps_le (auto_dly b + bi_nsamp b) (chain_start b) (trigs b) /\
+      (first_cand b < dec_end b -> dec_end b - 1 - chain_last b <= auto_dly b + bi_nsamp b).
+Proof.
+  destruct model_blocks as [bs [Ha Hb]]. exists bs. split; [exact Ha|].
+  intros b Hb' H1 H2. destruct (Hb b Hb') as [_ [_ [_ [_ H]]]]. apply H.
+  unfold auto_free. rewrite H1. lia.
+Qed.
+
+Lemma st_model_passes_checker : C02_check npre nsamp ts F0 h = true.
+Proof. apply C02_check_of_holds. exact model_blocks. Qed.
+
+End Statements.
+
+(* a concrete non-trivial history meets the premises: signed channel, restored edge+level+auto settings, a pulse in
+   the dead time of an auto trigger (so the trigger sits one sample later), a refused and an accepted length change, a trigger reconfiguration *)
+Definition ex2_ts : tstate := mkts true 9 0 true true 65500 true true false 100 false.
+Definition ex2_blk (data : list Z) (first : Z) : op :=
+  Block {| seg_data := data; seg_first := first; seg_time := 5 * first; seg_period := 5; seg_signed := true |}.
+Definition ex2_ops : list op :=
+  [ ex2_blk [65400;65400;65400;65400;65400;65400;65400] 100;
+    ex2_blk [65400;200;200;150;100;65500] 107;
+    CfgLen 2 1; CfgLen 9 4;
+    ex2_blk [65400;65400;65400;65400;65400;65400;65400;65400;65400;65400] 113;
+    CfgTrig (mkts false 0 0 false false 0 true false true 50 false);
+    ex2_blk [65400;65400;65400;65400;65400;65400] 123 ].
+
+Example premises_example :
+  0 <= 100 /\ lengths_ok 3 6 = true /\ 6 <= max_nsamp /\ contiguous 100 ex2_ops /\ Forall (op_ok2 5 true) ex2_ops /\
+  map (fun o => match o with ORecs r _ _ => map r_frame r | _ => [] end) (run (fresh_start 3 6 ex2_ts) ex2_ops) =
+    [[103]; [109]; []; []; []; []; [111]].
+Proof.
+  repeat split; try reflexivity; try (unfold max_nsamp; lia).
+  - cbn. lia.
+  - repeat constructor; cbn; unfold max_nsamp; lia.
+Qed.
